@@ -74,7 +74,11 @@ where
             .statistics
             .iter()
             .map(|s| match s.statistic.calculate(&self.scs) {
-                Ok(stat) => Ok(format!("{stat:.precision$}", precision = s.precision)),
+                // The formatting machinery panics on a precision beyond u16::MAX
+                Ok(stat) => Ok(format!(
+                    "{stat:.precision$}",
+                    precision = s.precision.min(usize::from(u16::MAX))
+                )),
                 Err(e) => Err(anyhow!(e)),
             })
             .collect::<Result<Vec<_>, _>>()?;
